@@ -49,7 +49,13 @@ let run_script cfgw ops =
       | "J" :: k :: v :: n :: r -> emit (show_out (st (OInsert (z k, z v, Some (nat_of_int (int_of_string n)))))); go r
       | "F" :: k :: r -> emit (show_out (st (OFind (z k)))); go r
       | ("R" | "P") :: k :: r -> emit (show_out (st (ORemove (z k)))); go r
-      | "D" :: m :: q :: r -> emit (show_out (st (ORemoveIf (z m, z q)))); go r
+      | "D" :: m :: q :: r ->
+        (* cross-check: the bucket-wise formulation (brem_if) must give the same state as the iterator-machine loop used by step *)
+        let pred (k, _) = Z.equal (Z.erem (zarith_of_z k) (zarith_of_z (z m))) (zarith_of_z (z q)) in
+        let (sb, cb) = hremove_if_b_cfg !w.wa pred in
+        let x = st (ORemoveIf (z m, z q)) in
+        if show_shape (shape_cfg c sb) <> show_shape (shape_cfg c !w.wa) || (match x with RNum n -> sz n <> sz cb | _ -> true)
+        then emit "?brem_if-differs" else emit (show_out x); go r
       | "E" :: k :: r ->
         (match st (OFind (z k)) with
          | ROpt (Some v) -> ignore (st (ORemove (z k))); ignore (st (OInsert (z k, v, None))); emit "1"
